@@ -20,7 +20,7 @@ CLAIMS = {
  "C11": ("proof", "accessor contracts: get/Index/IndexMut/get_node_id_at/count/is_empty/as_slice/usize::from/NonZeroUsize::from agree with the slot view (proved). get_node_id (raw pointer arithmetic) is outside Verus: Kani harnesses check the round trip on arenas of at most 3 slots with one removal and one recycling (quick tier: two harnesses, ~1 min; thorough tier: three, ~15 min); that part is BOUNDED and not counted as proved.", "§4 C11", "iter()/iter_mut()/Display delegate to std; get_node_id only bounded (Kani, <= 3 slots); a node of another arena cannot be checked in CBMC's pointer model"),
  "C12": ("proof", "a removed slot has no links (part of wf, hence after every operation), no link of a live node targets a removed slot or an old generation, inserts with a removed id in either position are refused without change, Node::reuse starts with no links.", "§4 C12", "none beyond the common trusted base"),
  "C17": ("other", "restricted claim: the extraction is repeated for all 16 subsets of {std, macros, par_iter, deser}; the functions under contract are token-identical in every subset (today: one variant; cfg attributes inside bodies are evaluated per subset); if variants differ, a bounded differential run of the real crate built with each variant's features looks for calls whose results differ (replayable witness), and every differing variant is verified against the same contracts; par_iter's body is checked syntactically. Whole-crate behaviour (pretty-printed text, serde, macros) is outside the claim.", "§4 C17", "only the functions under contract; identical extracted text is taken as identical behaviour because their only dependencies are core/alloc"),
- "C13": ("proof", "new/default/with_capacity/clear all yield the same three fields (empty, no free slots); reserve/with_capacity change nothing observable; every contract is a function of the three fields that derive(PartialEq) compares; the derive lists of Arena/Node/NodeData/NodeId/NodeStamp are themselves an obligation (a type that no longer derives Clone/PartialEq/Eq fails C13).", "§4 C13", "derive(Clone, PartialEq) are structural; Vec capacity guarantees are std's"),
+ "C13": ("proof", "new/default/with_capacity/clear all yield the same three fields (empty, no free slots); reserve/with_capacity change nothing observable; every contract is a function of the three fields that derive(PartialEq) compares; the derive lists of Arena/Node/NodeData/NodeId/NodeStamp are themselves an obligation (a type that no longer derives Clone/PartialEq/Eq fails C13).", "§4 C13", "derive(Clone, PartialEq) are structural (a lost derive is undecided unless the witness step finds a history on which clone/== misbehave); the capacity guarantee of with_capacity/reserve is std's and cannot be a contract (no capacity in vstd's view of Vec): the three one-line functions are compared with the verified text and a change is handed to the witness step"),
 }
 NA = {
  "C14": "the pretty printer is &str scanning into fmt::Formatter; the installed Verus rejects str byte reasoning and format_args!, so no contract within reach can state the output text",
